@@ -23,7 +23,7 @@ IncA == [k |-> "inc", n |-> "a"]
 DefA == [k |-> "def", n |-> "a", d |-> 10]
 PAssign == [k |-> "passign", id |-> 0]
 YF(g, arg) == [k |-> "yfrom", g |-> g, arg |-> arg]
-YFs == {YF(2, VarA), YF(3, [k |-> "lit", v |-> 1]), YF(4, VarA), YF(4, [k |-> "lit", v |-> 1])}
+YFs == {YF(2, VarA), YF(3, [k |-> "lit", v |-> 1]), YF(4, VarA)}
 AllJumps == {"return", "break", "continue"}
 
 ACtl == [simple |-> {Eff, IncA, Y(Lit0), Y(VarA)},
@@ -32,8 +32,11 @@ ACtl == [simple |-> {Eff, IncA, Y(Lit0), Y(VarA)},
 Def2 == [k |-> "def2"]
 AScope == [simple |-> {Eff, DefA, Def2, IncA, [k |-> "callf"], Y(VarA)},
            inits |-> {None, DefA, Def2}, posts |-> {None, IncA, Y(VarA)}, conds |-> {T0},
-           ifinits |-> {None, DefA, Def2}, kinds |-> {"if", "ifelse", "switch", "block", "for"}, jumps |-> {"continue"}, ranges |-> {}]
-AYf == [simple |-> {Eff, IncA, Y(VarA)} \cup YFs,
+           ifinits |-> {None, DefA, Def2}, kinds |-> {"if", "ifelse", "switch", "tswitchb", "block", "for"}, jumps |-> {"continue"}, ranges |-> {}]
+\* it := D2(r, 3, b) at the top of the function: pulled by hand and / or delegated to
+PullIt == [k |-> "pullit", id |-> 0]
+YFromIt == [k |-> "yfromit"]
+AYf == [simple |-> {Eff, Y(VarA), PullIt, YFromIt} \cup YFs,
         inits |-> {None}, posts |-> {None} \cup YFs, conds |-> {T0},
         ifinits |-> {None}, kinds |-> {"if", "switch", "for"}, jumps |-> {"break", "continue"}, ranges |-> {}]
 \* delegation family without the recursive delegate: bounded delegation depth (C17 loop cases)
@@ -168,7 +171,9 @@ Small == UNION {Tab[m + 1].B["top"] : m \in 0..(IF Lazy THEN MaxSize - 1 ELSE Ma
 VARIABLES prog, tape0, plen, w, wb, calls, obs, obsB
 vars == <<prog, tape0, plen, w, wb, calls, obs, obsB>>
 
-Start(p, tape, flags) == Spawn(MW0(<<p, D2, D3, D4>>, tape, Budget, flags), 1, 0, 2).w
+Start(p, tape, flags) ==
+  LET w1 == Spawn(MW0(<<p, D2, D3, D4>>, tape, Budget, flags), 1, 0, 2).w IN
+  IF Family = "yf" THEN Spawn(w1, 2, 3, 2).w ELSE w1      \* yf: instance 2 is the local iterator  it := D2(r, 3, b)
 Init == /\ \/ \E raw \in Small : \E fin \in Finish(raw) : prog = Label(fin)
            \/ (Lazy /\ \E raw \in {0} : FALSE)   \* (keeps TLC's Init shape uniform)
            \/ (Lazy /\ LET B(m, ctx) == Tab[m + 1].B[ctx] IN
